@@ -6,6 +6,7 @@ import (
 	"context"
 	"net/http"
 	"strings"
+	"sync"
 
 	"github.com/fiorix/go-diameter/diam/sm"
 	"github.com/gin-gonic/gin"
@@ -20,16 +21,17 @@ import (
 
 // zzApp is the application object the server is wired to in the harness.
 type zzApp struct {
-	cfg *factory.Config
-	ctx *chf_context.CHFContext
-	p   *processor.Processor
+	cfg        *factory.Config
+	ctx        *chf_context.CHFContext
+	p          *processor.Processor
+	terminated bool
 }
 
 func (a *zzApp) SetLogEnable(bool)                {}
 func (a *zzApp) SetLogLevel(string)               {}
 func (a *zzApp) SetReportCaller(bool)             {}
 func (a *zzApp) Start()                           {}
-func (a *zzApp) Terminate()                       {}
+func (a *zzApp) Terminate()                       { a.terminated = true }
 func (a *zzApp) Context() *chf_context.CHFContext { return a.ctx }
 func (a *zzApp) Config() *factory.Config          { return a.cfg }
 func (a *zzApp) Consumer() *consumer.Consumer     { return nil }
@@ -171,4 +173,58 @@ func ZZ_C12_RechargeRoute() {
 		det := body.ChargingNotifyRequest.ReauthorizationDetails
 		vx.Assert("the notification names the rating group given in the path", len(det) == 1 && det[0].RatingGroup == want)
 	}
+}
+
+// C13 is stateless: after a request with a token that verifies has been
+// served, a token that does not verify - same claims, other signature or
+// algorithm, i.e. a forged copy - is still answered 401 on every route, and no
+// handler behind the check runs. (The verification stub accepts exactly one
+// designated Authorization header.)
+//
+//gosx:property=C13 tier=quick
+func ZZ_C13_NoCreditForEarlierRequests() {
+	ctx := chf_context.GetSelf()
+	ctx.OAuth2Required = true
+	ctx.NrfCertPem = "nrf.pem"
+	list := []string{"nchf-convergedcharging", "nchf-offlineonlycharging", "nchf-spendinglimitcontrol"}
+	app := &zzApp{cfg: &factory.Config{Configuration: &factory.Configuration{ServiceNameList: list}}, ctx: ctx, p: &processor.Processor{}}
+	s := &Server{ServerChf: app}
+	router := newRouter(s)
+	vx.Assert("router created", router != nil)
+	// header {"alg":"RS512","typ":"JWT"}, claims {"exp":4102444800} (year 2100)
+	const claims = "eyJleHAiOjQxMDI0NDQ4MDB9"
+	good := "Bearer eyJhbGciOiJSUzUxMiIsInR5cCI6IkpXVCJ9." + claims + ".Z29vZHNpZ25hdHVyZQ"
+	forged := []string{
+		"Bearer eyJhbGciOiJSUzUxMiIsInR5cCI6IkpXVCJ9." + claims + ".Zm9yZ2Vk",
+		"Bearer eyJhbGciOiJIUzI1NiIsInR5cCI6IkpXVCJ9." + claims + ".Zm9yZ2Vk",
+		"Bearer AAAA." + claims + ".BBBB",
+	}[vx.Choice("forgery", 3)]
+	vx.Register("oauth.goodToken", good)
+	for i := 0; i < vx.GinRoutes(); i++ {
+		// the genuine request: the check lets it pass (what the API handler
+		// then does with an empty body is not the subject)
+		c1 := &gin.Context{Request: &http.Request{Header: http.Header{"Authorization": []string{good}}}}
+		func() {
+			defer func() { _ = recover() }()
+			vx.GinServe(i, c1)
+		}()
+		vx.Assert("a token that verifies is not answered 401", vx.HTTPStatus(c1) != 401)
+		c2 := &gin.Context{Request: &http.Request{Header: http.Header{"Authorization": []string{forged}}}}
+		ran := vx.GinServe(i, c2)
+		vx.Assert("a forged copy of an accepted token is answered 401", vx.HTTPStatus(c2) == 401)
+		vx.Assert("no handler after the authorisation check ran for the forged token", ran < vx.GinChainLen(i) && vx.HTTPWrites(c2) == 1)
+	}
+}
+
+// ZZStartServer runs the real SBI server start-up code (Server.startServer,
+// with the listener calls of net/http stubbed) on cfg and reports whether the
+// server task crashed: startServer recovers a panic, logs it as fatal and
+// terminates the application.
+func ZZStartServer(cfg *factory.Config) (crashed bool) {
+	app := &zzApp{cfg: cfg, ctx: chf_context.GetSelf(), p: &processor.Processor{}}
+	s := &Server{ServerChf: app, httpServer: &http.Server{Addr: cfg.GetSbiBindingAddr()}}
+	var wg sync.WaitGroup
+	wg.Add(1)
+	s.startServer(&wg)
+	return app.terminated
 }
